@@ -4,9 +4,11 @@ package main
 // rules work on.  Everything is re-loaded from the working tree on every run.
 
 import (
+	"bytes"
 	"fmt"
 	"go/ast"
 	"go/constant"
+	"go/printer"
 	"go/token"
 	"go/types"
 	"os"
@@ -172,6 +174,15 @@ func (c *Ctx) Src(e ast.Node) string {
 		return types.ExprString(x)
 	}
 	return fmt.Sprintf("%T@%s", e, c.Pos(e))
+}
+
+// FullSrc renders a node with go/printer: composite literal bodies are kept.
+func (c *Ctx) FullSrc(n ast.Node) string {
+	var b bytes.Buffer
+	if err := printer.Fprint(&b, c.Pkg.Fset, n); err != nil {
+		return c.Src(n)
+	}
+	return b.String()
 }
 
 // ConstOf evaluates a constant expression through go/types.
